@@ -8,7 +8,7 @@
    does not listen the model therefore predicts the hang, the observation agrees
    with it, and [pclass] -- the property on the observation -- reports it. *)
 From Coq Require Import ZArith NArith List Bool String.
-From GoCoap Require Import Base.Cases Liveness.Model Liveness.Close Liveness.Stall Liveness.Table Liveness.Stop Liveness.Spec Gen.WakeSets.
+From GoCoap Require Import Base.Cases Liveness.Model Liveness.Close Liveness.Stall Liveness.Table Liveness.Stop Liveness.Reg Liveness.Accept Liveness.Spec Gen.WakeSets.
 Import ListNotations.
 Local Open Scope list_scope.
 Open Scope Z_scope.
@@ -58,7 +58,17 @@ Inductive case :=
    is given up, 2 the deadline of the request's context has passed: given up, 3 as 1 by two goroutines at once while
    the trigger fires; trig 0 cancel, 1 deadline, 2 local Close, 4 the peer answers (mode 0).  o_tick = every
    housekeeping call returned; o_late = a call made afterwards returned *)
-| Tick (tr op mode trig : Z) (o_tick o_ret : bool) (o_err : Z) (o_late : bool).
+| Tick (tr op mode trig : Z) (o_tick o_ret : bool) (o_err : Z) (o_late : bool)
+(* ncb on-close callbacks registered, then Close; callback number who registers nlate further callbacks when it runs
+   (mode 0), or another goroutine registers them while callback who is running (mode 1); tr 1 tcp, 2 dtls, 3 udp.Dial.
+   o_cb / o_late: how often each of the callbacks registered before / during the shutdown ran *)
+| RegRun (tr mode ncb nlate who : Z) (o_cb o_late : list Z) (o_done o_closers : bool)
+(* nstop concurrent Stop calls on a stream server (mode 0 tcp, 1 tls) with nreg fully registered connections and one
+   more, whose peer is silent, still being set up: mode 0 inside its OnNewConn hook (kept there until the registered
+   connections have completed Done), mode 1 inside the TLS handshake.  nconn = connections handed to OnNewConn in the
+   end, o_cb their callbacks (ncb each), o_done / o_ctx = Done completed on all of them / context of the late one
+   cancelled *)
+| SetupStop (mode nstop nreg ncb nconn : Z) (o_cb : list Z) (o_done o_ctx o_closers o_panic o_serve : bool).
 
 Definition udp_like (tr : Z) : bool := negb (tr =? 1).
 
@@ -206,6 +216,44 @@ Definition tick_model (mode : Z) : bool * bool * bool :=
   let x := texec (t_init, ts) (rr (List.length ts) (S (tmeasure ts))) in
   (forallb is_nil (firstn n (snd x)), is_nil (nth n (snd x) [TRLock]), is_nil (nth (S n) (snd x) [TRLock])).
 
+(* registration during shutdown: the slice model (Reg.v) with the shape of popOnClose found in the current source
+   (Gen/WakeSets.v *_pop_shape).  mode 0: one thread, callback who registers the late ones; mode 1: the shutdown
+   thread runs up to and including callback who, the other thread registers, the shutdown thread goes on *)
+Definition pop_shape_of (n : nat) : popshape := match n with 1%nat => PopTrunc | _ => PopNil end.
+Definition reg_shape (tr : Z) : popshape :=
+  pop_shape_of (if tr =? 1 then tcp_pop_shape else if tr =? 2 then dtls_pop_shape else udp_pop_shape).
+Definition reg_model (v : popshape) (mode : Z) (ncb nlate who : nat) : list Z * list Z :=
+  let cbs := seq 0 ncb in
+  let lates := seq ncb nlate in
+  let regs := fun f => if (mode =? 0) && Nat.eqb f who then lates else [] in
+  let ts := if mode =? 0 then [[RPop]] else [[RPop]; map RAdd lates] in
+  let sched := if mode =? 0 then repeat 0%nat (2 + ncb + nlate + nlate)
+               else repeat 0%nat (2 + who) ++ repeat 1%nat nlate ++ repeat 0%nat ncb in
+  let x := rexec v regs (r_init cbs, ts) sched in
+  (map (fun f => Z.of_nat (ran_count (fst x) f)) cbs, map (fun f => Z.of_nat (ran_count (fst x) f)) lates).
+
+(* Stop while a connection is being set up: the model (Accept.v) with the parent of the connection contexts found in
+   the current source (Gen/WakeSets.v tcp_conn_ctx).  The registered connections are set up first (their peers
+   complete the handshake), the late one stays in its hook / in the handshake; then the Stop calls, Serve up to
+   the close of its table, then round robin:
+   (connections handed to OnNewConn, their callbacks, all of them Done, context of the late one done, Serve returned) *)
+Definition has_hook (p : list xact) : bool := existsb (fun a => match a with XHook _ => true | _ => false end) p.
+Definition setup_model (mode : Z) (nstop nreg ncb : nat) : Z * list Z * bool * bool * bool :=
+  let v := if String.eqb tcp_conn_ctx "s.ctx" then CtxServer else CtxParent in
+  let tls := mode =? 1 in
+  let n := S nreg in
+  let e := mkXE (fun c => Nat.ltb c nreg) (fun _ => false) in
+  let ts := server_sys n (fun _ => tls) (fun _ => O) nstop in
+  let pre := flat_map (fun c => repeat c 4) (seq 0 nreg) ++
+             flat_map (fun t => [t; t]) (seq (S n) nstop) ++ [n; n; n] in
+  let x := xexec v e (x_init, ts) (pre ++ rrx (List.length ts) (8 * (n + 2))) in
+  let hooked := filter (fun c => negb (has_hook (nth c (snd x) []))) (seq 0 n) in
+  (Z.of_nat (List.length hooked),
+   flat_map (fun c => repeat (if mem c (x_done (fst x)) then 1 else 0) ncb) hooked,
+   forallb (fun c => mem c (x_done (fst x))) hooked,
+   forallb (fun c => negb (Nat.eqb c nreg) || ctx_done v (fst x) c) hooked,
+   Accept.is_nil (nth n (snd x) [XWaitStop])).
+
 Definition agrees (c : case) : bool :=
   match c with
   | Op tr op pt peer trig0 o_ret o_err =>
@@ -241,6 +289,13 @@ Definition agrees (c : case) : bool :=
       let '(m_tick, m_ret, m_late) := tick_model mode in
       Bool.eqb o_tick m_tick && Bool.eqb o_ret m_ret && Bool.eqb o_late m_late &&
       (negb o_ret || err_agrees trig o_err)
+  | RegRun tr mode ncb nlate who o_cb o_late o_done o_closers =>
+      let '(cb, late) := reg_model (reg_shape tr) mode (Z.to_nat ncb) (Z.to_nat nlate) (Z.to_nat who) in
+      zlist_eqb o_cb cb && zlist_eqb o_late late && o_done && o_closers
+  | SetupStop mode nstop nreg ncb nconn o_cb o_done o_ctx o_closers o_panic o_serve =>
+      let '(m_nconn, cb, dn, cx, sv) := setup_model mode (Z.to_nat nstop) (Z.to_nat nreg) (Z.to_nat ncb) in
+      (nconn =? m_nconn) && zlist_eqb o_cb cb && Bool.eqb o_done dn && Bool.eqb o_ctx cx && o_closers && negb o_panic &&
+      Bool.eqb o_serve sv
   end.
 
 (* the property on the OBSERVED output (Spec only) *)
@@ -254,6 +309,8 @@ Definition pclass (c : case) : N :=
   | ReaderEnd _ _ cause _ _ o_cb o_done o_ctx o_ops o_late => reader_end_class cause o_cb o_done o_ctx o_ops o_late
   | StopRace _ _ _ _ _ o_cb o_done o_closers o_panic o_serve => stop_race_class o_cb o_done o_closers o_panic o_serve
   | Tick _ _ _ trig _ o_ret o_err o_late => tick_class trig o_ret o_err o_late
+  | RegRun _ _ _ _ _ o_cb o_late o_done o_closers => reg_class o_cb o_late o_done o_closers
+  | SetupStop _ _ _ _ _ o_cb o_done o_ctx o_closers o_panic o_serve => setup_stop_class o_cb o_done o_ctx o_closers o_panic o_serve
   end.
 
 Definition mismatches (cs : list case) : list N := bad_indices (fun c => negb (agrees c)) cs.
